@@ -992,6 +992,10 @@ def readGraph(input_file,
             G = graph_class.normalize(G)
         except networkx.NetworkXError as errmsg:
             raise ValueError("[Parse error in GML input] {} ".format(errmsg))
+        except TypeError as errmsg:
+            # e.g. a repeated key in a node, or an undirected graph
+            # where a directed one is expected
+            raise ValueError("[Parse error in GML input] {} ".format(errmsg))
         except UnicodeEncodeError as errmsg:
             raise ValueError(
                 "[Non-ascii chars in GML file] {} ".format(errmsg))
